@@ -973,6 +973,8 @@ const ENTITY_TABLE: &[(&str, &str)] = &[
     ("amp", "&"), ("lt", "<"), ("gt", ">"), ("quot", "\""), ("apos", "'"), ("nbsp", "\u{a0}"), ("copy", "\u{a9}"), ("reg", "\u{ae}"), ("yen", "\u{a5}"), ("euro", "\u{20ac}"),
     ("hellip", "\u{2026}"), ("mdash", "\u{2014}"), ("times", "\u{d7}"), ("alpha", "\u{3b1}"), ("Omega", "\u{3a9}"), ("AMP", "&"), ("LT", "<"), ("frac12", "\u{bd}"), ("sup2", "\u{b2}"),
     ("frac14", "\u{bc}"), ("frac34", "\u{be}"), ("sup1", "\u{b9}"), ("sup3", "\u{b3}"), ("there4", "\u{2234}"), ("blk12", "\u{2592}"), ("blk14", "\u{2591}"), ("frac78", "\u{215e}"),
+    // names that denote TWO code points
+    ("fjlig", "fj"), ("bne", "=\u{20e5}"), ("NotEqualTilde", "\u{2242}\u{338}"), ("nvlt", "<\u{20d2}"), ("ThickSpace", "\u{205f}\u{200a}"), ("caps", "\u{2229}\u{fe00}"), ("acE", "\u{223e}\u{333}"),
 ];
 /// REFERENCE DECODER for static text and static attribute values (from the property text: character references denote
 /// their code point, named references their HTML character; anything else stands for itself)
@@ -1089,7 +1091,8 @@ fn family_c12(out: &mut Vec<Case>) {
         "&#9;", "&#0;", "&#1;", "&#7;", "&#10;", "&#13;", "&#32;", "&#34;", "&#38;", "&#39;", "&#60;", "&#123;", "&#127;", "&#128;", "&#160;", "&#8232;", "&#65279;", "&#65535;", "&#65536;", "&#128512;", "&#1114111;",
         "&#1114112;", "&#55296;", "&#57343;", "&#4294967296;", "&#99999999999999999999;", "&#x41;", "&#x041;", "&#xa;", "&#xA;", "&#x0;", "&#x7f;", "&#x2028;", "&#x1F600;", "&#x1f600;", "&#x10FFFF;", "&#x110000;",
         "&#xD800;", "&#xDFFF;", "&#xFFFFFFFFF;", "&#;", "&#x;", "&;", "&", "& ", "&&", "&amp", "&amp ;", "&ampx;", "&foo;", "&#65", "&#x41", "&#6 5;", "&#xG;", "&#-1;", "&amp;amp;", "&#38;amp;", "&#38;#38;", "&amp;#65;",
-        "a&amp;b", "&lt;script&gt;", "&Amp;", "&amp;&lt;", "&#65;&#66;", "&#x41;&#x42;", "&quot", "&nbsp", "&frac12;", "&sup2;", "&frac14;", "&frac34;", "&sup1;", "&sup3;", "&there4;", "&blk12;", "&blk14;", "&frac78;", "&frac12;2", "&sup2;&sup3;", "&frac12", "&frac1;", "&1;", "&a1b2;"] {
+        "a&amp;b", "&lt;script&gt;", "&Amp;", "&amp;&lt;", "&#65;&#66;", "&#x41;&#x42;", "&quot", "&nbsp", "&frac12;", "&sup2;", "&frac14;", "&frac34;", "&sup1;", "&sup3;", "&there4;", "&blk12;", "&blk14;", "&frac78;", "&frac12;2", "&sup2;&sup3;", "&frac12", "&frac1;", "&1;", "&a1b2;",
+        "&fjlig;", "&bne;", "&NotEqualTilde;", "&nvlt;", "&ThickSpace;", "&caps;", "&acE;", "x&fjlig;y", "&bne;1"] {
         let want = jsstr(&format!("[{}]", ref_decode(e)));
         let tpl = format!("<v a=\"[{e}]\" b='[{e}]' data-k=\"[{e}]\" u=\"[{e}]{{{{ n }}}}\">[{e}]</v><y>{{{{ n }}}}[{e}]</y>", e = e);
         out.push(c12_case(format!("c12/entity/{}", e), tpl, vec![("r:a", want.clone(), false), ("r:b", want.clone(), false), ("d:k", want.clone(), false), ("r:u", want.clone(), false), ("t", format!("[{w}, {w}]", w = want), true)]));
